@@ -978,6 +978,8 @@ def compare_case(w, rec, reply, reply2) -> list[str]:
     real = real_decisions(w, rec)
     if not reply.get("wf", False):
         dis.append("extracted instance violates the theorems' well-formedness hypotheses (Inst.wf = false)")
+    if not reply.get("acyclic", False):
+        dis.append("extracted instance violates the completeness hypothesis (wfAcyclic = false)")
     if reply.get("nomodel"):
         if rec["n_models"] != 0:
             dis.append("model predicts that no solver model is built, the real call built one")
